@@ -98,6 +98,7 @@ func (w *world) runLife(li int, l *lifetime) {
 						if !w.failed {
 							s.Fail("api", w.sig("next-spurious-error"), "Next failed without an injected store failure: %v", err)
 						}
+						s.Probe("next-returned-injected-error")
 						s.Logf("%s Next -> error %v", name, err)
 						continue
 					}
@@ -124,6 +125,15 @@ func (w *world) runLife(li int, l *lifetime) {
 		if n.ret == 0 {
 			inflight++
 		}
+	}
+	if inflight > 0 {
+		s.Probe("crash-with-next-in-flight")
+	}
+	if uint64(len(got)) > l.interval {
+		s.Probe("lease-renewed-inside-lifetime")
+	}
+	if len(got) > 0 && len(w.results) > len(got) {
+		s.Probe("lifetime-continues-an-earlier-one")
 	}
 	if len(got) > 0 {
 		first := got[0]
@@ -161,6 +171,14 @@ func (w *world) runLife(li int, l *lifetime) {
 				clean = true
 			}
 		}
+	}
+	if clean {
+		s.Probe("lifetime-ended-with-clean-release")
+	} else if !w.crashed {
+		s.Probe("lifetime-abandoned-without-release")
+	}
+	if len(nexts) == 0 && len(releases) > 0 {
+		s.Probe("release-on-object-that-never-called-next")
 	}
 	if !clean {
 		// crash / abandon: at most one interval is wasted, plus the numbers already assigned to calls that were in
